@@ -53,9 +53,9 @@ var c19FamilyNames = []string{"build", "mutate", "search", "sort", "collate", "f
 
 var c19Types = []string{"int", "string", "slice", "any"}
 
-func genC19(t *simrt.Tape) *c19Prog {
+func genC19(t *simrt.Tape, maxTasks int) *c19Prog {
 	p := &c19Prog{}
-	nt := t.Range(2, 6)
+	nt := t.Range(2, maxTasks)
 	// Swarm: a run concentrates on one or two families so that pairs of
 	// families meet often; the element type is shared by most tasks so that
 	// they meet in the same class.
@@ -217,7 +217,16 @@ func c19Run[T any](typ string, mk func(int) T, ops []c19Op, classes *c19Classes)
 			case 13:
 				ensureList()
 				list.ShuffleValues()
-				emit(name, list.AsArray())
+				// only "is a permutation" is compared with the serial run: the
+				// draw itself may legitimately differ if the entropy source is
+				// not the seam this harness controls
+				arr := list.AsArray()
+				strs := make([]string, len(arr))
+				for i, v := range arr {
+					strs[i] = fmt.Sprintf("%v", v)
+				}
+				sort.Strings(strs)
+				emit(name, strs)
 			case 14:
 				class := agent.Collator[T]()
 				classes.note("Collator["+typ+"]", class)
@@ -365,7 +374,11 @@ func (propC19) Run(ctx *Ctx, index int) {
 		ctx.Res.ProgKey = jsonKey(dp)
 		return
 	}
-	prog := genC19(ctx.Prog)
+	maxTasks := 6
+	if ctx.Tier == "thorough" {
+		maxTasks = 12
+	}
+	prog := genC19(ctx.Prog, maxTasks)
 	ctx.Res.Desc = prog
 	ctx.Res.ProgKey = jsonKey(prog)
 	n := len(prog.Tasks)
